@@ -51,6 +51,9 @@ def parse_opts(s):
         elif w.startswith('R28='):
             opts['rules'].append('R28')
             opts['r28_sigs'] = w[len('R28='):].split(',')
+        elif re.match(r'^R36=[\w,]+$', w):
+            opts['rules'].append('R36')
+            opts['r36_names'] = w.split('=')[1].split(',')
         elif re.match(r'^R20=\w+$', w):
             opts['rules'].append('R20')
             opts['r20_type'] = w.split('=')[1]
